@@ -193,4 +193,61 @@ C04_OK(ev) ==
   /\ \A i, j \in T : i # j => TextCovered(ev.doc.elems[i]) \cap TextCovered(ev.doc.elems[j]) = {}
   /\ NonDrawingCells(crs) \subseteq UNION { TextCovered(ev.doc.elems[i]) : i \in T }
 C04_NT(ev) == NonDrawingCells(DrawCells(ev)) # {}
+
+---------------------------------------------------------------------------
+(* C15 — quoted text                                                                        *)
+\* the code's mechanism for blanking (escape_line): prefix, then as many spaces as the cells the
+\* content occupies (every non-filler character at least one cell) plus the two quotes
+ContentCells(s) == FoldLeft(LAMBDA n, c : IF c = NUL THEN n ELSE n + CpCells(c), 0, s)
+MechBlank(cr) ==
+  LET segs == QuoteSegs(cr)
+      step(st, sg) == [out |-> st.out \o SubSeq(cr, st.idx, sg[1] - 1) \o [j \in 1..(ContentCells(SubSeq(cr, sg[1] + 1, sg[2] - 1)) + 2) |-> SP],
+                       idx |-> sg[2] + 1]
+      st == FoldLeft(step, [out |-> <<>>, idx |-> 1], segs)
+  IN st.out \o SubSeq(cr, st.idx, Len(cr))
+QuotedElems(crs) ==
+  FoldLeft(LAMBDA acc, r : acc \o [i \in 1..Len(QuotedTexts(crs[r], r)) |->
+              LET q == QuotedTexts(crs[r], r)[i] IN
+              [k |-> "text", n |-> <<q[1] * MILLI, q[2] * MILLI>>, role |-> <<0, 1>>, fl |-> <<>>, cls |-> <<>>, s |-> q[3], g |-> 0]],
+           <<>>, [r \in 1..Len(crs) |-> r])
+\* the statement's domain: no backslash, and no brace (a quoted {tag} is a class tag by C16)
+QuoteDomain(crs) == \A r \in 1..Len(crs) : \A p \in 1..Len(crs[r]) : crs[r][p] \notin {92, 123, 125}
+HasQuoted(crs) == \E r \in 1..Len(crs) : QuoteSegs(crs[r]) # <<>>
+RStripCells(cr) == LET idx == { i \in 1..Len(cr) : cr[i] # SP } IN IF idx = {} THEN <<>> ELSE SubSeq(cr, 1, SetMax(idx))
+
+---------------------------------------------------------------------------
+(* C02 — one well-formed document that round-trips the text; C08 — only svgbob's vocabulary  *)
+WellFormedDoc(doc) == doc.wf = 1 /\ doc.nroot = 1 /\ doc.ns = 1 /\ doc.whnum = 1 /\ doc.badnum = 0
+\* a text element shows the input cells from its anchor, minus what XML cannot represent
+ShownFrom(crs, e) ==
+  /\ TextAnchorOK(e) /\ TextRow(e) \in 1..Len(crs)
+  /\ LET cr == crs[TextRow(e)] c == TextCol(e) IN
+     \/ \E kk \in 0..(Len(cr) - c + 1) : Shown(SubSeq(cr, c, c + kk - 1)) = e.s
+     \/ \E kk \in 0..(Len(cr) - c) : c <= Len(cr) /\ cr[c] = QUOTE /\ Shown(SubSeq(cr, c + 1, c + kk)) = e.s
+TextRoundTrip(crs, doc) == \A i \in OfKind(doc, "text") : ShownFrom(crs, doc.elems[i])
+\* every character of the drawing that XML can represent and that is shown as text appears in
+\* the read-back text: checked per channel through the expected strings carried by the event
+IsSubSeqAt(s, t) == \E off \in 0..(Len(t) - Len(s)) : SubSeq(t, off + 1, off + Len(s)) = s
+SomeTextIs(doc, s) == s = <<>> \/ \E i \in OfKind(doc, "text") : doc.elems[i].s = s
+AnyStyleLineContains(doc, s) == \E i \in 1..Len(doc.style) : IsSubSeqAt(s, doc.style[i])
+\* the event carries probe strings: input runs that must be read back as the character data of one
+\* text element (plain and quoted channel) or inside the style text (legend channel), literally,
+\* minus the characters XML cannot represent
+C02_OK(ev) ==
+  /\ WellFormedDoc(ev.doc)
+  /\ \A i \in 1..Len(ev.expect_text) : SomeTextIs(ev.doc, Shown(ev.expect_text[i]))
+  /\ \A i \in 1..Len(ev.expect_style) : AnyStyleLineContains(ev.doc, Shown(ev.expect_style[i]))
+C02_NT(ev) == Len(ev.expect_text) + Len(ev.expect_style) > 0
+
+VocabularyOnly(doc) ==
+  /\ doc.wf = 1
+  /\ doc.foreign = <<>> /\ doc.attrs_foreign = <<>>
+  /\ doc.comments = 0 /\ doc.pis = 0 /\ doc.doctype = 0 /\ doc.cdata = 0 /\ doc.entities = 0 /\ doc.entityrefs = 0
+  /\ doc.stray_text = 0 /\ doc.nroot = 1 /\ doc.ns = 1
+  /\ \A i \in 1..Len(doc.clstok) : IsIdent(doc.clstok[i])
+\* the payload's marker may surface only as character data of text/style or as a class token
+MarkerConfined(doc, marker) ==
+  \A i \in 1..Len(doc.namestok) : ~IsSubSeqAt(marker, doc.namestok[i])
+C08_OK(ev) == VocabularyOnly(ev.doc) /\ MarkerConfined(ev.doc, ev.marker)
+C08_NT(ev) == TRUE
 =============================================================================
